@@ -124,6 +124,8 @@ def battery(ctx, o, kind):
         out.append(('intersection with a fixed line',) + call(lambda: G.intersection(L0, o)))
     if kind in ('Point', 'Line', 'Plane'):
         out.append(('distance to a fixed point',) + call(lambda: G.distance(pt(ctx, x0), o)))
+    if kind in ('Line', 'Segment', 'HalfLine'):
+        out.append(('parametric()',) + call(lambda: tuple(o.parametric())))
     if kind == 'Plane':
         out.append(('general_form()',) + call(lambda: tuple(o.general_form())))
         out.append(('point_normal()',) + call(lambda: tuple(o.point_normal())))
@@ -143,7 +145,7 @@ def battery_same(r1, r2):
             return False
         cs = []
         for a, b in zip(v1, v2):
-            if isinstance(a, Vector):
+            if isinstance(a, (Vector, Point)):
                 cs.append(R.vnear(V3(a), V3(b), T7))
             else:
                 cs.append(near(a, b, T7))
